@@ -289,6 +289,9 @@ func c08(c *Ctx) {
 			"an observation for an instrument not registered with this callback is recorded: "+why)
 	}
 
+	c.Rule("R8", "E4 role agreement", "exponential collect methods: positive/negative bucket roles agree in delta and cumulative (= C07.R7)", 2)
+	ruleSignRoles(c, ax, "R8")
+
 	c.Rule("R7", "E3 + E2 (shared)", "callbacks run before compute (= C02.R6); observable kinds get precomputed aggregators (= C02.R9)", 20)
 	if fn := mx.Func("(*pipeline).produce"); fn != nil {
 		g := mx.FG(fn)
